@@ -744,3 +744,87 @@ func ruleSingleLine(r *Run) {
 	}
 	r.Min("heading_writers", nHead, 1)
 }
+
+// ---------------------------------------------------------------------------
+// R-FORMAT-PARAM (C19): inline formatting nests (`*a **b** c*`).  The formatting in force for a
+// span is handed down to the spans nested in it; a nested span that changes the object it was
+// handed changes the formatting of everything that follows it in the enclosing span.  Structural
+// condition: no function of the Markdown renderer stores through a *document.TextFormat parameter
+// (it must work on a copy).
+// ---------------------------------------------------------------------------
+
+func ruleFormatParam(r *Run) {
+	p := r.P
+	n := 0
+	for _, fn := range p.ModFuncs() {
+		if fn.Pkg == nil || fn.Pkg.Pkg.Path() != pkgMd {
+			continue
+		}
+		for _, par := range fn.Params {
+			if !typeIs(par.Type(), pkgDoc, "TextFormat") {
+				continue
+			}
+			if _, isPtr := par.Type().Underlying().(*types.Pointer); !isPtr {
+				continue
+			}
+			n++
+			var bad *ssa.Store
+			// the parameter itself, and the loads of a local it is spilled to (captured by a closure)
+			vals := []ssa.Value{par}
+			if par.Referrers() != nil {
+				for _, u := range *par.Referrers() {
+					if st, ok := u.(*ssa.Store); ok && st.Val == ssa.Value(par) {
+						if al, ok := st.Addr.(*ssa.Alloc); ok && al.Referrers() != nil {
+							for _, g := range withClosures(fn) {
+								allInstrs(g, func(in ssa.Instruction) {
+									ld, ok := in.(*ssa.UnOp)
+									if !ok || ld.Op != token.MUL {
+										return
+									}
+									if ld.X == ssa.Value(al) {
+										vals = append(vals, ld)
+									}
+									if fv, ok := ld.X.(*ssa.FreeVar); ok && fv.Name() == par.Name() {
+										vals = append(vals, ld)
+									}
+								})
+							}
+						}
+					}
+				}
+			}
+			for _, v := range vals {
+				if v == ssa.Value(par) || v.Referrers() == nil {
+					continue
+				}
+				for _, u := range *v.Referrers() {
+					if fa, ok := u.(*ssa.FieldAddr); ok && fa.Referrers() != nil {
+						for _, u2 := range *fa.Referrers() {
+							if st, ok := u2.(*ssa.Store); ok && st.Addr == ssa.Value(fa) {
+								bad = st
+							}
+						}
+					}
+				}
+			}
+			if par.Referrers() != nil {
+				for _, u := range *par.Referrers() {
+					if fa, ok := u.(*ssa.FieldAddr); ok && fa.Referrers() != nil {
+						for _, u2 := range *fa.Referrers() {
+							if st, ok := u2.(*ssa.Store); ok && st.Addr == ssa.Value(fa) {
+								bad = st
+							}
+						}
+					}
+				}
+			}
+			pos := fn.Pos()
+			if bad != nil {
+				pos = bad.Pos()
+			}
+			r.Check("format-param", shortName(topLevel(fn))+":"+par.Name(), pos, bad == nil,
+				fmt.Sprintf("%s is handed the formatting of the enclosing span (%s): %s", shortName(topLevel(fn)), par.Name(), map[bool]string{true: "it does not modify it", false: "it stores into it — the text that follows the nested span inside the enclosing span is rendered with the nested span's formatting as well"}[bad == nil]))
+		}
+	}
+	r.Count("renderer_functions_handed_a_text_format", n)
+}
